@@ -557,7 +557,41 @@ def _probe_popen_poll():
     check_real({'kind': 'popen', 'entry': 'expect', 'sched': 'poll-pending', 'T': 0.3})
 
 
+def _probe_popen_poll_heldback():
+    """timeout=0 on a piped child examines what has been received also when the previous read left text behind:
+    the child writes HEAD + 1100 x + MARK + 1000 y at once; read_nonblocking(1000) takes the first queue chunk and
+    holds 24 characters back; everything else is queued; expect('MARK', timeout=0) must find MARK."""
+    import tempfile
+    from pexpect.popen_spawn import PopenSpawn
+    fd, path = tempfile.mkstemp(prefix='c05_')
+    os.write(fd, b'HEAD' + b'x' * 1100 + b'MARK' + b'y' * 1000)
+    os.close(fd)
+    sp = PopenSpawn(['/bin/cat', path], maxread=1000, timeout=5)
+    try:
+        time.sleep(0.3)
+        first = sp.read_nonblocking(1000, 2)
+        if len(first) != 1000:
+            return          # the reader thread cut the output differently: the scenario did not happen
+        try:
+            sp.expect_exact(b'MARK', timeout=0)
+        except TIMEOUT:
+            raise Violation('poll-ignores-received-data', "PopenSpawn: expect('MARK', timeout=0) reported TIMEOUT although MARK had been "
+                            'received (24 characters held back by the previous read, the rest queued)')
+        except EOF:
+            raise Violation('poll-ignores-received-data', "PopenSpawn: expect('MARK', timeout=0) reported EOF before MARK")
+    finally:
+        try:
+            sp.proc.wait()
+            sp.proc.stdout.close()
+            sp.proc.stdin.close()
+        except Exception:
+            pass
+        os.unlink(path)
+
+
 PROBES = [
+    ('probe:popen-timeout-0-heldback', 'PopenSpawn with timeout 0 looks at the queue also when text was held back by the previous read',
+     _probe_popen_poll_heldback),
     ('probe:hangup-alive', 'a child that closes its terminal while staying alive makes expect() overrun its timeout '
                            '(blocking waitpid in the liveness check)', _probe_hangup_alive),
     ('probe:waitnoecho-none', 'waitnoecho(None) raises TypeError instead of waiting for the toggle', _probe_waitnoecho_none),
